@@ -992,8 +992,10 @@ func NewPrinter() *Printer {
 	return &Printer{names: map[*Term]string{}, Vars: map[string]Sort{}, UFs: map[string]string{}, Out: &strings.Builder{}}
 }
 
+// symName quotes a user-level name as an SMT-LIB symbol; the prefix keeps it
+// apart from theory symbols such as xor, and, select.
 func symName(s string) string {
-	return "|" + strings.NewReplacer("|", "_", "\\", "_").Replace(s) + "|"
+	return "|v." + strings.NewReplacer("|", "_", "\\", "_").Replace(s) + "|"
 }
 
 // Ref returns the SMT-LIB expression naming t, appending any needed
